@@ -111,6 +111,7 @@ func (t *Tracer) Link(source, target *Packet) {
 	if source == nil || target == nil || source == target {
 		return
 	}
+	verifTrace(t, "link", nil, nil, source, target, false)
 
 	t.sources[target.ID()] = append(t.sources[target.ID()], source)
 	t.targets[source.ID()] = append(t.targets[source.ID()], target)
@@ -130,6 +131,7 @@ func (t *Tracer) Read(reader *Reader, pck *Packet) {
 	t.mu.Lock()
 	defer t.mu.Unlock()
 
+	verifTrace(t, "read", reader, nil, pck, nil, false)
 	t.reads[reader] = append(t.reads[reader], pck)
 	t.reader[pck.ID()] = reader
 }
@@ -148,10 +150,12 @@ func (t *Tracer) Write(writer *Writer, pck *Packet) {
 	defer t.mu.Unlock()
 
 	if writer != nil && writer.Write(pck) > 0 {
+		verifTrace(t, "write", nil, writer, pck, nil, true)
 		t.writes[writer] = append(t.writes[writer], pck)
 		t.receives[pck.ID()] = append(t.receives[pck.ID()], nil)
 	} else {
 		// the packet is its own answer, in a slot of its own: the slots already there are owed to packets derived from it
+		verifTrace(t, "write", nil, writer, pck, nil, false)
 		t.receives[pck.ID()] = append(t.receives[pck.ID()], pck)
 		t.resolve(pck)
 	}
@@ -170,6 +174,7 @@ func (t *Tracer) Receive(writer *Writer, pck *Packet) {
 	t.mu.Lock()
 	defer t.mu.Unlock()
 
+	verifTrace(t, "receive", nil, writer, pck, nil, false)
 	writes := t.writes[writer]
 	if len(writes) == 0 {
 		return
@@ -195,6 +200,7 @@ func (t *Tracer) Receive(writer *Writer, pck *Packet) {
 func (t *Tracer) Close() {
 	t.mu.Lock()
 	defer t.mu.Unlock()
+	verifTrace(t, "close", nil, nil, nil, nil, false)
 
 	for _, reader := range t.reader {
 		reader.Receive(New(ErrDroppedPacket))
@@ -296,6 +302,7 @@ func (t *Tracer) resolve(pck *Packet) {
 			}
 
 			join := Join(receives...)
+			verifTrace(t, "answer", reader, nil, read, join, false)
 			reader.Receive(join)
 
 			delete(t.reader, read.ID())
